@@ -26,7 +26,8 @@ Hypothesis deflate_wf : forall p, wf_bytes (deflate p).
    completely, all representable and with binary subtypes the reader accepts; if
    each stays below BSON's 2 GiB limit, each is framed by the reader (accepted by
    its validator, decoded to itself).  [op_frame_ok]: clock readings are int64
-   values, added and metadata documents have readable binary subtypes. *)
+   values, metadata documents are representable (added documents are by [ops_ok];
+   representable excludes binary subtypes 0x06..0x7f). *)
 Theorem C09_log_wellformed : forall k n fs ops, streaming k = true -> 1 <= n -> ops_ok k ops ->
   Forall op_frame_ok ops -> no_short fs ->
   let w := snd (c09_reach deflate k n fs ops) in
